@@ -28,6 +28,12 @@ LEVEL = {
          "Exhaustive over the finite parts (mapping of all 1,112,064 scalar values, NFC of every single code point; pairs and per-code-point probes exhaustive in the thorough tier) and exploration over generated domains for the composed pipeline, Punycode, label validity, to_unicode and the URL level. Open findings P7/P9/P10 are excluded by explicit input predicates and counted."),
  "C16": ("metamorphic relations (equivalent spellings, idempotence, ToASCII.ToUnicode round trip) over G-idna domains; rapidcheck + libFuzzer",
          "Exploration: the relations are theorems of UTS #46, so no external truth is needed; the reference tables only generate the equivalent spellings."),
+ "C02": ("coverage-guided fuzzing (libFuzzer) + rapidcheck over an omnibus byte-decoded target under ASan/UBSan/LeakSanitizer",
+         "Exploration: arbitrary bytes through every public entry point family, every result read completely; the oracle is the sanitizers, abort/uncaught-exception detection and the per-input time limit."),
+ "C12": ("reference-model lock-step (list-of-pairs model from the URL Standard) over operation histories + byte round trip; rapidcheck + libFuzzer",
+         "Exploration over init strings and operation histories with full-content comparison after every step; round trip over arbitrary byte-string pairs."),
+ "C17": ("differential C API vs C++ API over generated call sequences under ASan + LeakSanitizer; rapidcheck + libFuzzer",
+         "Exploration over call histories on url / params / list / iterator handles with a C++ mirror; leaks and double frees are judged by the sanitizers."),
  "C19": ("invariant predicate over every reachable state of setter histories; rapidcheck + libFuzzer",
          "Exploration over histories; the record invariants are evaluated after the parse and after every step on both URL types."),
 }
